@@ -45,10 +45,12 @@ theorem eqb_def (a b : ℝ) : RealLike.eqb a b = decide (a = b) := rfl
 end RealR
 
 /-- normalises a term built with the `RealLike ℝ` instance into ordinary real arithmetic -/
-macro "real_like" : tactic => `(tactic|
-  (simp only [RealR.ofNat_def, RealR.log_def, RealR.exp_def, RealR.pow_def, RealR.sqrt_def, RealR.abs_def,
-     RealR.ltb_def, RealR.leb_def, RealR.eqb_def]
-   simp only [Nat.cast_ofNat, Nat.cast_zero, Nat.cast_one]
-   try dsimp only [instRealLikeReal]))
+syntax "real_like" (Lean.Parser.Tactic.location)? : tactic
+macro_rules
+  | `(tactic| real_like $[$loc]?) => `(tactic|
+    (simp only [RealR.ofNat_def, RealR.log_def, RealR.exp_def, RealR.pow_def, RealR.sqrt_def, RealR.abs_def,
+       RealR.ltb_def, RealR.leb_def, RealR.eqb_def] $[$loc]?
+     try simp only [Nat.cast_ofNat, Nat.cast_zero, Nat.cast_one] $[$loc]?
+     try dsimp only [instRealLikeReal] $[$loc]?))
 
 end Gv
